@@ -153,18 +153,36 @@ pub fn obs_sel(s: &Sentence, sel: &str) -> String {
         parts.push(format!("G{}", s.tags().iter().map(show_tag).collect::<Vec<_>>().join(".")));
     }
     if want('I') { parts.push(match catch(|| {
-        s.iter_tokens()
-            .map(|t| {
-                format!(
-                    "{}-{}-{}-{}",
-                    t.start(),
-                    t.end(),
-                    hexs(t.surface()),
-                    t.tags().iter().map(show_tag).collect::<Vec<_>>().join("+")
-                )
-            })
-            .collect::<Vec<_>>()
-            .join(".")
+        let show = |t: &vaporetto::Token| {
+            format!(
+                "{}-{}-{}-{}",
+                t.start(),
+                t.end(),
+                hexs(t.surface()),
+                t.tags().iter().map(show_tag).collect::<Vec<_>>().join("+")
+            )
+        };
+        // the reference enumeration uses `next()`; every other way of consuming the iterator must give the same tokens:
+        // internal iteration (`for_each`/`fold`), `count`, `last`, and `next()` for the first k tokens followed by internal
+        // iteration for the rest
+        let mut it = s.iter_tokens();
+        let mut via_next: Vec<String> = vec![];
+        while let Some(t) = it.next() {
+            via_next.push(show(&t));
+        }
+        let mut consistent = s.iter_tokens().count() == via_next.len() && s.iter_tokens().last().map(|t| show(&t)) == via_next.last().cloned();
+        for k in 0..=via_next.len() {
+            let mut it = s.iter_tokens();
+            let mut got: Vec<String> = vec![];
+            for _ in 0..k {
+                if let Some(t) = it.next() {
+                    got.push(show(&t));
+                }
+            }
+            it.for_each(|t| got.push(show(&t)));
+            consistent &= got == via_next;
+        }
+        if consistent { via_next.join(".") } else { format!("!inconsistent-iteration:{}", via_next.join(".")) }
     }) {
         Ok(x) => format!("I{x}"),
         Err(_) => "I!panic".into(),
@@ -263,6 +281,32 @@ fn oracle_c02(s: &Sentence, fails: &mut Vec<(String, String)>) {
     };
     let exp_full: Vec<(usize, usize, String)> =
         expected.iter().map(|&(a, b)| (a, b, chars[a..b].iter().collect())).collect();
+    // every way of consuming the iterator reports the same tokens (internal iteration, count, last, mixed)
+    let other_ways = catch(|| {
+        let mut bad: Option<String> = None;
+        if s.iter_tokens().count() != got.len() {
+            bad = Some(format!("count() = {} but next() yields {} tokens", s.iter_tokens().count(), got.len()));
+        }
+        for k in 0..=got.len() {
+            let mut it = s.iter_tokens();
+            let mut v = vec![];
+            for _ in 0..k {
+                if let Some(t) = it.next() {
+                    v.push((t.start(), t.end(), t.surface().to_string()));
+                }
+            }
+            it.for_each(|t| v.push((t.start(), t.end(), t.surface().to_string())));
+            if v != got && bad.is_none() {
+                bad = Some(format!("{k} tokens by next() then for_each gives {v:?}, next() alone gives {got:?}"));
+            }
+        }
+        bad
+    });
+    match other_ways {
+        Ok(Some(b)) => fails.push(("C02".into(), format!("the token iterator is not consistent: {b}"))),
+        Err(m) => fails.push(("C02".into(), format!("iter_tokens panicked under internal iteration: {m}"))),
+        _ => {}
+    }
     if got != exp_full {
         fails.push(("C02".into(), format!("tokens {got:?} != word-boundary-delimited unknown-free segments {exp_full:?}")));
         return;
